@@ -106,6 +106,8 @@ def make_pair(case):
 
 
 def close(a, b):
+    if isinstance(a, (list, tuple)) and isinstance(b, (list, tuple)):
+        return len(a) == len(b) and all(close(x, y) for x, y in zip(a, b))
     if isinstance(a, (float, np.floating)) or isinstance(b, (float, np.floating)):
         try:
             a, b = float(a), float(b)
@@ -247,6 +249,23 @@ MEASURES = {
     "intersection_profile": matrix(lambda H: xgi.intersection_profile(H, sparse=False, index=True), "e", "e"),
     "clique_motif_matrix": matrix(lambda H: xgi.clique_motif_matrix(H, sparse=False, index=True), "n", "n"),
 }
+# aggregates of the degree and size statistics ("degree and size statistics" of the statement): plain numbers, no IDs involved.
+# argmin / argmax / argsort are left out on purpose - with ties their answer legitimately depends on the order of the IDs.
+def _agg(stat, fn, *args):
+    def get(H):
+        view, name = stat.split(".")
+        st_ = getattr(getattr(H, view), name)
+        v = getattr(st_, fn)(*args)
+        return np.asarray(v).tolist() if isinstance(v, (np.ndarray, np.generic)) else v
+
+    return scalar(get)
+
+
+for _stat in ("nodes.degree", "edges.size", "edges.order", "nodes.average_neighbor_degree"):
+    for _fn in ("max", "min", "sum", "mean", "median", "std", "var", "mode", "unique"):
+        MEASURES["%s.%s()" % (_stat, _fn)] = _agg(_stat, _fn)
+    MEASURES["%s.moment(3)" % _stat] = _agg(_stat, "moment", 3)
+
 SIMPLICIALITY = {
     "edit_simpliciality": scalar(xgi.edit_simpliciality),
     "simplicial_edit_distance": scalar(xgi.simplicial_edit_distance),
